@@ -83,12 +83,13 @@ Print Assumptions C17_original_error_surfaces_before_fix_refuted.
 
 (* a starting mass handed in by the caller: with the fuel load derived either way (fixes/FC17a.diff) it is defined
    before the first iteration and the mass handed in is the one used *)
-Theorem C17_fuel_load_defined_before_first_iteration : forall calc o own c given,
+Theorem C17_fuel_load_defined_before_first_iteration : forall calc o own c given sm tf,
   lookup "starting_mass" own = None -> lookup "total_fuel_mass" own = None ->
   let e := mkb o own (Some (ctx_of c given)) in
-  getattr (prepare calc true e) "total_fuel_mass" = Some (Some (snd (calc o (view e)))) /\
-  getattr (prepare calc true e) "starting_mass" =
-    Some (Some (match given with Some m => m | None => fst (calc o (view e)) end)).
+  calc o (view e) = inl (sm, tf) ->
+  exists d, prepare calc true e = inl d /\
+    getattr d "total_fuel_mass" = Some (Some tf) /\
+    getattr d "starting_mass" = Some (Some (match given with Some m => m | None => sm end)).
 Proof. exact fuel_load_defined_before_first_iteration. Qed.
 Print Assumptions C17_fuel_load_defined_before_first_iteration.
 
@@ -96,9 +97,15 @@ Print Assumptions C17_fuel_load_defined_before_first_iteration.
 Theorem C17_fuel_load_defined_before_fix_refuted : forall calc o own c m,
   lookup "starting_mass" own = None -> lookup "total_fuel_mass" own = None ->
   let e := mkb o own (Some (ctx_of c (Some m))) in
-  getattr (prepare calc false e) "total_fuel_mass" = Some None.
+  prepare calc false e = inl e /\ getattr e "total_fuel_mass" = Some None.
 Proof. exact given_mass_fuel_load_undefined_before_fix. Qed.
 Print Assumptions C17_fuel_load_defined_before_fix_refuted.
+
+(* a refusal of calc_starting_mass itself (cruise level outside the table) is the reason reported *)
+Theorem C17_calc_refusal_surfaces : forall calc iter_once small adjust gfix b e,
+  prepare calc gfix b = inr e -> body calc iter_once small adjust gfix b = (b, Raised (Reason e)).
+Proof. exact calc_refusal_surfaces. Qed.
+Print Assumptions C17_calc_refusal_surfaces.
 
 (* mass iteration: a trajectory only with a residual that passed the tolerance test, otherwise an error *)
 Theorem C17_mass_iteration_tolerance_or_error : forall iter_once small adjust k b t r,
